@@ -62,6 +62,7 @@ struct simos {
     int cap_hit;
     int hard_fault_fired;  /* a fault of a hard kind fired */
     int enospc_by_cap;
+    long rng_perm_fired;   /* permanent failures the entropy source delivered to the process */
     size_t stdout_len;
     unsigned char stdout_buf[SIMOS_STDOUT_MAX];
 };
